@@ -467,7 +467,7 @@ pub fn run_c09(p: &Params) -> Outcome {
         "c09-rand",
         p.n(100_000, 3_000_000),
         &g,
-        &|rng| (vec![gen_lim(rng, ALL_KINDS, BASIC_PKS, 8)], rng.chance(1, 2)),
+        &|rng| (vec![gen_lim(rng, ALL_KINDS, ALL_PKS, 8)], rng.chance(1, 2)),
         &nt,
     ));
     // large vectors: views with dozens of items, sources beyond one imbl chunk (64)
@@ -1084,7 +1084,7 @@ pub fn run_c15(p: &Params) -> Outcome {
 // Whoever receives (values, stream) starts from `values`: values + everything the stream yields from then on
 // must be the adapter's view of the source.
 
-fn late_parts_case(kind: Kind, dynamic: bool, limit: usize, init: &[u32], op1: &VOp, taken: usize, op2: &VOp) -> Result<u64, String> {
+fn late_parts_case(kind: Kind, dynamic: bool, limit0: usize, init: &[u32], op1: &VOp, new_limit: Option<usize>, taken: usize, op2: &VOp) -> Result<u64, String> {
     use eyeball::Observable;
     use eyeball_im::{ObservableVector, VectorDiff};
     use eyeball_im_util::vector::{VectorObserver, VectorObserverExt};
@@ -1123,6 +1123,8 @@ fn late_parts_case(kind: Kind, dynamic: bool, limit: usize, init: &[u32], op1: &
             }
         }
     }
+    // the limit in force after the first step (a limit change instead of a source operation, dynamic forms only)
+    let limit = new_limit.unwrap_or(limit0);
     let expect = |m: &[u32]| -> Vec<u32> {
         match kind {
             Kind::Head => m.iter().take(limit).copied().collect(),
@@ -1133,14 +1135,19 @@ fn late_parts_case(kind: Kind, dynamic: bool, limit: usize, init: &[u32], op1: &
     let mut ob: ObservableVector<u32> = ObservableVector::with_capacity(16);
     ob.append(init.iter().copied().collect());
     let mut model = init.to_vec();
-    let lim = Observable::new(limit);
-    let bound = if !dynamic && kind != Kind::Skip { Some(limit) } else { None };
+    let mut lim = Observable::new(limit0);
+    let bound = if !dynamic && kind != Kind::Skip { Some(limit0) } else { None };
     macro_rules! body {
         ($a:expr, $v0:expr) => {{
             let mut a = $a;
             let mut view: Vector<u32> = $v0;
             drain(&mut a, &mut view, 0, bound)?;
-            apply_on_vec(&mut ob, &mut model, op1);
+            match new_limit {
+                Some(l) => {
+                    Observable::set(&mut lim, l);
+                }
+                None => apply_on_vec(&mut ob, &mut model, op1),
+            }
             // the first consumer takes `taken` items and stops (0 = none)
             let mut events = 0u64;
             if taken > 0 {
@@ -1173,27 +1180,27 @@ fn late_parts_case(kind: Kind, dynamic: bool, limit: usize, init: &[u32], op1: &
     let sub = ob.subscribe().into_values_and_stream();
     match (kind, dynamic) {
         (Kind::Head, true) => {
-            let (v0, a) = sub.dynamic_head_with_initial_value(limit, Observable::subscribe(&lim));
+            let (v0, a) = sub.dynamic_head_with_initial_value(limit0, Observable::subscribe(&lim));
             body!(a, v0)
         }
         (Kind::Tail, true) => {
-            let (v0, a) = sub.dynamic_tail_with_initial_value(limit, Observable::subscribe(&lim));
+            let (v0, a) = sub.dynamic_tail_with_initial_value(limit0, Observable::subscribe(&lim));
             body!(a, v0)
         }
         (Kind::Skip, true) => {
-            let (v0, a) = sub.dynamic_skip_with_initial_count(limit, Observable::subscribe(&lim));
+            let (v0, a) = sub.dynamic_skip_with_initial_count(limit0, Observable::subscribe(&lim));
             body!(a, v0)
         }
         (Kind::Head, false) => {
-            let (v0, a) = sub.head(limit);
+            let (v0, a) = sub.head(limit0);
             body!(a, v0)
         }
         (Kind::Tail, false) => {
-            let (v0, a) = sub.tail(limit);
+            let (v0, a) = sub.tail(limit0);
             body!(a, v0)
         }
         (Kind::Skip, false) => {
-            let (v0, a) = sub.skip(limit);
+            let (v0, a) = sub.skip(limit0);
             body!(a, v0)
         }
     }
@@ -1242,15 +1249,31 @@ pub fn late_parts(prop: &str, p: &Params) -> Outcome {
         let (kind, dynamic, limit, len) = roots[ri as usize];
         let init: Vec<u32> = (1..=len as u32).collect();
         let ops1 = src_alphabet(&init, 0, &|_, j| 50 + j as u32, 8, false);
+        // first step: a source operation, or (dynamic forms) a change of the limit/count
+        let mut firsts: Vec<(VOp, Option<usize>)> = vec![];
         for a1 in &ops1 {
-            let AOp::Src(op1) = a1 else { continue };
+            if let AOp::Src(op1) = a1 {
+                firsts.push((op1.clone(), None));
+            }
+        }
+        if dynamic {
+            for l in 0..=7usize {
+                // (Tail, limit decreased from beyond the length to below it, is the known finding F4 -
+                // tail.limit_decrease_beyond_len - which the adapter engine reports; not repeated here)
+                let f4 = kind == Kind::Tail && limit > init.len() && init.len() > l && l > 0;
+                if l != limit && !f4 {
+                    firsts.push((VOp::Clear, Some(l)));
+                }
+            }
+        }
+        for (op1, new_limit) in &firsts {
             let mut m = init.clone();
             model_op(&mut m, op1);
             let ops2 = [VOp::PushBack(70), VOp::PushFront(71), VOp::PopFront, VOp::PopBack];
             for taken in 0..=2usize {
                 for op2 in &ops2 {
                     out.ev.evaluations += 1;
-                    let r = std::panic::catch_unwind(std::panic::AssertUnwindSafe(|| late_parts_case(kind, dynamic, limit, &init, op1, taken, op2)));
+                    let r = std::panic::catch_unwind(std::panic::AssertUnwindSafe(|| late_parts_case(kind, dynamic, limit, &init, op1, *new_limit, taken, op2)));
                     let r = match r {
                         Ok(r) => r,
                         Err(_) => Err(format!("unexpected panic: {}", last_panic())),
@@ -1259,7 +1282,7 @@ pub fn late_parts(prop: &str, p: &Params) -> Outcome {
                         Ok(events) => {
                             out.ev.add("late_into_parts_items", events);
                             if events > 0 {
-                                out.ev.nontrivial(hash_of(&(ri, format!("{op1:?}{taken}{op2:?}"))));
+                                out.ev.nontrivial(hash_of(&(ri, format!("{op1:?}{new_limit:?}{taken}{op2:?}"))));
                             }
                         }
                         Err(what) => {
@@ -1273,7 +1296,13 @@ pub fn late_parts(prop: &str, p: &Params) -> Outcome {
                                     case: json!({"gen": gen_name, "case": ri}),
                                     history: vec![
                                         format!("{kind:?} ({}), limit/count {limit}, source {init:?}", if dynamic { "dynamic with initial value" } else { "fixed" }),
-                                        format!("{op1:?}; first consumer takes {taken} item(s); VectorObserver::into_parts(adapter); drain; {op2:?}; drain"),
+                                        format!(
+                                            "{}; first consumer takes {taken} item(s); VectorObserver::into_parts(adapter); drain; {op2:?}; drain",
+                                            match new_limit {
+                                                Some(l) => format!("limit/count set to {l}"),
+                                                None => format!("{op1:?}"),
+                                            }
+                                        ),
                                     ],
                                     what,
                                 });
